@@ -72,8 +72,9 @@ func genEntry(r *rand.Rand, forwarded bool) entry {
 	text := base
 	zone := ""
 	if v6 && strings.HasPrefix(base, "fe80") && r.IntN(2) == 0 {
-		zone = "eth0"
-		e.ip += "%eth0"
+		// zone identifiers are case-sensitive and may hold digits, dots and hyphens
+		zone = []string{"eth0", "Eth0", "WLAN-1", "en0.100", "1"}[r.IntN(5)]
+		e.ip += "%" + zone
 	}
 	if !v6 && r.IntN(6) == 0 {
 		text = "::ffff:" + base // IPv4-mapped
@@ -114,8 +115,16 @@ func genEntry(r *rand.Rand, forwarded bool) entry {
 			text = "proto=http;by=_gw;host=h;" + text
 		}
 	}
-	if r.IntN(4) == 0 {
+	// optional whitespace around a list item: spaces and horizontal tabs, on either side
+	switch r.IntN(8) {
+	case 0:
 		text = " " + text + "  "
+	case 1:
+		text = "\t" + text
+	case 2:
+		text += "\t"
+	case 3:
+		text = " \t" + text + "\t "
 	}
 	e.text = text
 	return e
